@@ -68,7 +68,7 @@ def run(ctx):
     except ImportError:
         pass
     for k, v in stats.items():
-        if v == 0:
+        if v == 0 and not ctx.violations:        # a vacuity complaint must not hide reported violations
             raise vlib.ToolError("vacuity: no event of class %s" % k)
     ctx.assumptions += [
         "programs/store/src/ops/glv.rs is NOT executed: the order of its pricing steps (which value is maximised / minimised, "
